@@ -27,7 +27,7 @@ def FLOORS(tier):
     q = tier == "quick"
     f = {"anc>=2": 200 if q else 5000, "reused-pair": 50 if q else 1000,
          "oracleA-checked": 600 if q else 20000, "oracleB-certificates": 150 if q else 3000,
-         "permuted-mapping": 100, "convert_solution-calls": 1000}
+         "permuted-mapping": 100, "convert_solution-calls": 1000, "typed-coefficients": 60}
     for c in CLASSES:
         for fo in FORMS:
             f["cell:%s:%s" % (c, fo)] = 10 if q else 300
@@ -72,6 +72,16 @@ def make_model(rng, big=False):
         k = tuple(k)
         terms[k] = terms.get(k, 0) + rng.choice(gen.DYADIC)
     M = T()
+    ctype = None
+    if rng.random() < 0.15:
+        # coefficient types other than int/float that behave like numbers (documented: "numeric")
+        import numpy as np
+        import sympy
+        ctype = rng.choice(["Fraction", "numpy.int64", "numpy.float64", "numpy.float32", "sympy.Integer", "sympy.Rational"])
+        conv = {"Fraction": F, "numpy.int64": lambda v: np.int64(round(v) or 1), "numpy.float64": np.float64,
+                "numpy.float32": np.float32, "sympy.Integer": lambda v: sympy.Integer(round(v) or 1),
+                "sympy.Rational": lambda v: sympy.Rational(F(v).numerator, F(v).denominator)}[ctype]
+        terms = {k: conv(v) for k, v in terms.items()}
     for k, v in terms.items():
         M[k] += v
     if cname in ("PCBO", "PCSO") and not big and rng.random() < 0.4:
@@ -94,6 +104,7 @@ def make_model(rng, big=False):
         rng.shuffle(perm)
         M.set_mapping({v: perm[i] for i, v in enumerate(vs)})
         permuted = True
+    make_model.last_ctype = ctype
     return cname, M, permuted
 
 
@@ -135,7 +146,7 @@ def check_certificate(ctx, M, P, cert, want, lam_sound, w):
     src = ref.Poly("bool")
     total = ref.Poly("bool")
     reductions = {}
-    next_anc = n
+    used_anc = set()
     nsubs = 0
     reused = 0
     for t in cert["terms"]:
@@ -153,12 +164,13 @@ def check_certificate(ctx, M, P, cert, want, lam_sound, w):
                 return False
             pair = (x, y) if (x, y) in reductions or (y, x) not in reductions else (y, x)
             if fresh:
-                if pair in reductions or z != next_anc or z < n:
-                    ctx.violation("cert:ancilla-not-fresh", "pair %r got ancilla %r (next unused %r, known %r)" % (
-                        (x, y), z, next_anc, reductions.get(pair)), w)
+                # the property allows any label >= n that was not used before (contiguity is not demanded)
+                if pair in reductions or z < n or z in used_anc:
+                    ctx.violation("cert:ancilla-not-fresh", "pair %r got ancilla %r (already used: %r, known for this pair: %r)" % (
+                        (x, y), z, sorted(used_anc), reductions.get(pair)), w)
                     return False
                 reductions[(x, y)] = z
-                next_anc += 1
+                used_anc.add(z)
             else:
                 reused += 1
                 if reductions.get(pair) != z:
@@ -217,6 +229,9 @@ def case(ctx, rng, idx):
     ctx.cat("lam:" + lk)
     if permuted:
         ctx.cat("permuted-mapping")
+    if getattr(make_model, "last_ctype", None):
+        ctx.cat("coefficient-type:" + make_model.last_ctype)
+        ctx.cat("typed-coefficients")
     nanc = None
     if not big:
         r = oracles.reduction_oracle(ctx, M, D, form, deg, sound, w, rng=rng)
